@@ -31,6 +31,8 @@ CLAIMS = {
          'Rollback of the running patch and a second launch start in one process are outside the statement (as the property scopes them).'),
  'C19': ('proof', 'C19_after_success, C19_failed, C19_crash_detected, C19_rolled_back, C19_superseded, C19_release_change as one-step post-conditions on the model; correspondence: directory listing after every op of exhaustive lifecycle histories incl. junk directories and release changes.',
          'Fault-free semantics (deletions that fail are covered under C04).'),
+ 'C16': ('proof', 'C16_varint_u64 / C16_varint_i64 (all usize / i64 values), C16_roundtrip (bidiff Translator+Writer then bipatch Reader reproduce new for ANY well-formed match list, all sizes < 2^63), C16_hash_gate, C16_end_to_end (library installs what the tool built, given a lossless compressor). Correspondence per (base,new) pair: the tool\'s real patch installs through the library and the artifact equals new; the model writer\'s bytes equal the real bidiff stream; wf_matches holds on the matches bidiff emits; model reader on the real stream gives new.',
+         'zstd round trip is a hypothesis of C16_end_to_end; the suffix-array matcher is only required to emit well-formed matches (checked on every generated pair, not proved); the chunked Reader is modelled by its one-shot semantics (chunk independence exercised by sizes crossing 4096/8192/65536, not proved).'),
 }
 NA = {}
 def main():
